@@ -26,13 +26,15 @@ type Env struct {
 	pkg   *types.Package
 	frame *Frame
 	qn    int
-	mode  int // 0 neutral, 1 assuming (register quantified facts), 2 proving (skolemise quantified goals)
+	mode  int   // 0 neutral, 1 assuming (register quantified facts), 2 proving (skolemise quantified goals)
+	guard *Term // assuming mode: the hypotheses (antecedents of enclosing implications) a registered quantified fact holds under
 }
 
 // qfact is a universally quantified integer-range fact kept for engine-side instantiation.
 type qfact struct {
 	sort   string
 	lo, hi *Term
+	guard  *Term
 	inst   func(idx *Term) *Term
 }
 
@@ -808,7 +810,18 @@ func (e *Env) evalCall(c *ast.CallExpr) (Val, error) {
 		if err != nil {
 			return Val{}, err
 		}
-		b, err := e.evalBool(c.Args[1])
+		ec := e
+		if e.mode == 1 {
+			// a quantified fact registered while assuming the consequent holds only under the antecedent
+			c2 := *e
+			if c2.guard == nil {
+				c2.guard = a
+			} else {
+				c2.guard = tAnd(c2.guard, a)
+			}
+			ec = &c2
+		}
+		b, err := ec.evalBool(c.Args[1])
 		if err != nil {
 			return Val{}, err
 		}
@@ -824,15 +837,15 @@ func (e *Env) evalCall(c *ast.CallExpr) (Val, error) {
 		}
 		return Val{tEq(a, b), boolT}, nil
 	case "ite":
-		cc, err := e.evalBool(c.Args[0])
+		cc, err := e.neutral().evalBool(c.Args[0])
 		if err != nil {
 			return Val{}, err
 		}
-		a, err := e.eval(c.Args[1])
+		a, err := e.neutral().eval(c.Args[1])
 		if err != nil {
 			return Val{}, err
 		}
-		b, err := e.eval(c.Args[2])
+		b, err := e.neutral().eval(c.Args[2])
 		if err != nil {
 			return Val{}, err
 		}
@@ -949,7 +962,9 @@ func (e *Env) evalCall(c *ast.CallExpr) (Val, error) {
 				// proving a universally quantified goal: skolemise and instantiate the known quantified facts there
 				sk := e.v.Y.fresh(e.v.D, "sk_"+id.Name, "Int")
 				for _, qf := range e.st.qfacts {
-					e.st.assume(qf.inst(sk))
+					if qf.sort == "Int" {
+						e.st.assume(qf.inst(sk))
+					}
 				}
 				c2.vars[id.Name] = Val{sk, intT}
 				c2.mode = 0
@@ -967,12 +982,16 @@ func (e *Env) evalCall(c *ast.CallExpr) (Val, error) {
 				bodyX := c.Args[3]
 				varName := id.Name
 				loT, hiT := lo.T, hi.T
-				e.st.qfacts = append(e.st.qfacts, qfact{sort: "Int", lo: loT, hi: hiT, inst: func(idx *Term) *Term {
+				grd := e.guard
+				e.st.qfacts = append(e.st.qfacts, qfact{sort: "Int", lo: loT, hi: hiT, guard: grd, inst: func(idx *Term) *Term {
 					b2 := base.child()
 					b2.vars[varName] = Val{idx, intT}
 					body, err := b2.evalBool(bodyX)
 					if err != nil {
 						return tTrue
+					}
+					if grd != nil {
+						return tImp(tAnd(grd, tCmp("<=", loT, idx), tCmp("<", idx, hiT)), body)
 					}
 					return tImp(tAnd(tCmp("<=", loT, idx), tCmp("<", idx, hiT)), body)
 				}})
@@ -1046,12 +1065,16 @@ func (e *Env) evalCall(c *ast.CallExpr) (Val, error) {
 				base.mode = 0
 				bodyX := c.Args[2]
 				varName := id.Name
+				grd := e.guard
 				e.st.qfacts = append(e.st.qfacts, qfact{sort: sortName, inst: func(idx *Term) *Term {
 					b2 := base.child()
 					b2.vars[varName] = Val{idx, qty}
 					body, err := b2.evalBool(bodyX)
 					if err != nil {
 						return tTrue
+					}
+					if grd != nil {
+						return tImp(grd, body)
 					}
 					return body
 				}})
